@@ -3,6 +3,7 @@ Every whole-metre distance 20 m..400 km as a bare number (quick: every metre to 
 and mile seam, 1 km steps beyond) and the road spellings N[.d]K / N[.d]M x gender x ages across the table x both table years:
 factor within the hull of the bracketing rows, best within theirs and increasing with distance, ends of the table do not fail."""
 import json, os, math
+from checks import crossapi
 from vlib import common
 from vlib import orderpass
 from vlib.common import Report, Violation, HarnessError, Acc, pmap, merge
@@ -202,6 +203,7 @@ def run(tier):
                (W[0], ('m', 70, '250000'), dict(year=y)), (W[2], ('m', '11K'), dict(year=y)), (W[2], ('f', '6200'), dict(year=y)), (W[2], ('m', '1609'), dict(year=y)),
                (W[1], ('m', 50, '8046', 1700.0), dict(year=y))]
     orderpass.part(rep, oc, 'interpolation call-order pass')
+    crossapi.part(rep, PID, tier)
     return rep.finish()
 
 
